@@ -136,6 +136,7 @@ func errKind(err error) string {
 
 func newExec(t *testing.T) func([]string) string {
 	junk := netip.MustParseAddr("203.0.113.77")
+	junk6 := netip.MustParseAddr("2001:db8::dead:beef")
 	return func(a []string) string {
 		switch a[0] {
 		case "parse":
@@ -144,17 +145,38 @@ func newExec(t *testing.T) func([]string) string {
 				return "bad-op"
 			}
 			b = b[:len(b):len(b)]
-			// a dirty, reused ParsedPacket: every reported field must come from this packet
-			fp := &firewall.ParsedPacket{
-				Packet: firewall.Packet{LocalAddr: junk, RemoteAddr: junk, LocalPort: 0xdead, RemotePort: 0xbeef,
-					Protocol: 0xee, Fragment: true},
-				IPHdrLen: 7777, FragAny: true,
+			// The data path reuses one ParsedPacket per routine (rxc.fwPacket, the inside routines' fwPacket), so
+			// newPacket always writes into whatever the previous packet left. newPacket itself resets only
+			// IPHdrLen and FragAny; every other field is expected to be written by each successful path of
+			// parseV4 / parseV6. Tie: parse into two dirty structs whose EVERY field (LocalAddr, RemoteAddr,
+			// LocalPort, RemotePort, Protocol, Fragment, IPHdrLen, FragAny) holds complementary garbage, so
+			// that whatever the right value of a field is, at least one of the two fills differs from it.
+			// Every reported field must come from this packet: the two answers must be the same line.
+			fills := [2]*firewall.ParsedPacket{
+				{
+					Packet: firewall.Packet{LocalAddr: junk, RemoteAddr: junk, LocalPort: 0xdead, RemotePort: 0xbeef,
+						Protocol: 0xee, Fragment: true},
+					IPHdrLen: 7777, FragAny: true,
+				},
+				{ // what a previous TCP packet to :443 leaves behind
+					Packet: firewall.Packet{LocalAddr: junk6, RemoteAddr: junk6, LocalPort: 443, RemotePort: 51000,
+						Protocol: firewall.ProtoTCP, Fragment: false},
+					IPHdrLen: 20, FragAny: false,
+				},
 			}
-			if err := nebula.VerifNewPacket(b, a[1] == "1", fp); err != nil {
-				return errKind(err)
+			var ans [2]string
+			for i, fp := range fills {
+				if err := nebula.VerifNewPacket(b, a[1] == "1", fp); err != nil {
+					ans[i] = errKind(err)
+					continue
+				}
+				ans[i] = fmt.Sprintf("ok %s %s %d %d %d %s %d %s", hlib.AddrHex(fp.LocalAddr), hlib.AddrHex(fp.RemoteAddr),
+					fp.LocalPort, fp.RemotePort, fp.Protocol, hlib.B(fp.Fragment), fp.IPHdrLen, hlib.B(fp.FragAny))
 			}
-			return fmt.Sprintf("ok %s %s %d %d %d %s %d %s", hlib.AddrHex(fp.LocalAddr), hlib.AddrHex(fp.RemoteAddr),
-				fp.LocalPort, fp.RemotePort, fp.Protocol, hlib.B(fp.Fragment), fp.IPHdrLen, hlib.B(fp.FragAny))
+			if ans[0] != ans[1] {
+				return ans[0] + " ## " + ans[1]
+			}
+			return ans[0]
 		case "upper":
 			b, err := hlib.UnHex(a[1])
 			if err != nil {
